@@ -86,6 +86,7 @@ fn items(prop: &str) -> Option<Vec<Item>> {
         "C12" => chan::c12(),
         "C14" => chan::c14(),
         "C15" => race::c08(),
+        "C16" => sims::c16(),
         "C17" => sims::c17(),
         "C18" => race::c08(),
         "C19" => sims::c19(),
